@@ -11,6 +11,7 @@ import Gv.Proofs.EvalLemmas
 import Gv.Proofs.Frame
 import Gv.Proofs.UpdateSound
 import Gv.Proofs.PlanCheckUSound
+import Gv.Proofs.PlanCheckUComplete
 
 namespace Gv.Props.C10
 open Gv Gv.Str Gv.Eval Gv.Gen
@@ -267,5 +268,53 @@ example : runMethod uProgramP 0 [.ptr (.src 3) uSrc, .ptr (.src 7) uOld] 10 = .o
 example : runMethod uProgramP 0 [.nil, .ptr (.src 7) uOld] 10 = .ok (.ptr (.src 7) uOld) := by
   unfold runMethod
   simp [uProgramP, uProgram, uMethodP, uMethod, List.zip, List.find?]
+
+/-! ### The run-time checker is EXACTLY the typing judgement of the composite theorems
+
+`PlanCheck.checkProgU` (evaluated by the driver on every generated plan) and the judgement `Typing.ProgOKU` / `HasTyU` from
+which `C05_composite_*`, `C10_composite*`, `C11_composite_*` are proved accept the same programs / plan nodes: the checker
+is sound (`checkProgU_sound`) AND complete — it cannot silently reject a plan the proofs cover, and a rejection means the
+plan really lies outside the judgement. -/
+
+open Gv.Typing Gv.Sound in
+theorem C10_checker_exact (p : Program) : PlanCheck.checkProgU p = true ↔ ProgOKU p :=
+  ⟨checkProgU_sound p, checkProgU_complete p⟩
+
+open Gv.Typing Gv.Sound in
+/-- the same for a single plan node at a pair of types -/
+theorem C10_checker_exact_node (p : Program) (c : Conv) (s t : Ty) : PlanCheck.checkTyU p c s t = true ↔ HasTyU p c s t :=
+  ⟨checkTyU_sound p c s t, checkTyU_complete p c s t⟩
+
+open Gv.Typing Gv.Sound in
+/-- … for the field plans of a struct node (skipped fields, mapped paths, source methods) -/
+theorem C10_checker_exact_fields (p : Program) (plans : FieldPlans) (s : Ty) (tfs : List (FieldInfo × Ty)) :
+    PlanCheck.checkFieldsU p plans s tfs = true ↔ HasFieldsU p plans s tfs :=
+  ⟨checkFieldsU_sound p plans s tfs, checkFieldsU_complete p plans s tfs⟩
+
+open Gv.Typing Gv.Sound in
+/-- … and for method bodies with a default constructor (`withCtor` / `ctorUpdate`) -/
+theorem C10_checker_exact_convert (p : Program) (c : Conv) (s t : Ty) :
+    PlanCheck.checkConvertU p c s t = true ↔ ConvertOKU p c s t :=
+  ⟨checkConvertU_sound p c s t, checkConvertU_complete p c s t⟩
+
+open Gv.Typing Gv.Sound in
+/-- a rejection is meaningful: a rejected program is outside the judgement -/
+theorem C10_checker_reject (p : Program) (h : PlanCheck.checkProgU p = false) : ¬ ProgOKU p := by
+  intro hok
+  rw [checkProgU_complete p hok] at h
+  cases h
+
+open Gv.Typing in
+/-- non-vacuity: the update program of the examples above is in the judgement (through the checker) … -/
+example : ProgOKU uProgram := (C10_checker_exact uProgram).1 (by decide)
+
+/-- … and a program whose update method maps a field the source does not have is rejected -/
+def uProgramBad : Program :=
+  { uProgram with methods := [{ uMethod with body := some (.update false (.structc
+      (.cons (.mapped "A".toList ["Missing".toList] [false] false false .ident .none)
+        (.cons (.skip "B".toList) (.cons (.skip "K".toList) .nil))) false)) }] }
+
+open Gv.Typing in
+example : ¬ ProgOKU uProgramBad := C10_checker_reject uProgramBad (by decide)
 
 end Gv.Props.C10
